@@ -197,7 +197,7 @@ def run(res, tier, seed, replay_script=None):
         evals = []
         for st in steps:
             if st.exc is not None:
-                if st.exc[0] == "hang" and not gl.still_hangs(drv, script, st.cmd, wd):
+                if st.exc[0] == "hang":      # running time / termination is not part of this statement (C08's clause): counted, the case ends
                     stats["slow_calls_skipped"] = stats.get("slow_calls_skipped", 0) + 1
                 elif st.exc[0] == "hang" or st.exc[0].startswith("crash"):
                     res.violation("no-return:" + st.cmd.split()[0], "%s -> %s [%s]" % (st.cmd[:80], st.exc, script[1]), replay)
@@ -278,7 +278,7 @@ def run(res, tier, seed, replay_script=None):
     if proof_broken and not res.violations:
         res.violation("proof", "proof obligations of Properties_C03.v no longer check (%d/%d) %s" % (props["discharged"], props["obligations"], res.coverage["forbidden_tokens"][:2]),
                       {"kind": "proof-break", "theorems": props["theorems"], "log": props["log"][-3000:]}, no_input=True)
-    res.coverage["slow_calls_completed_under_the_long_limit_skipped"] = stats.get("slow_calls_skipped", 0)
+    res.coverage["calls_not_returning_within_the_case_limit_not_judged"] = stats.get("slow_calls_skipped", 0)
     res.coverage.update({
         "evaluations": stats["evaluations"], "distinct_nontrivial": nontrivial,
         "rule": "grid = random family (Global nested and non-nested rules, Sequence, Fourier, Local Polynomial localp/semi-localp/localp-boundary order != 0 depth >= 1, Wavelet) "
